@@ -233,6 +233,11 @@ func Build(w *WF, rt *Runtime) *sp.Workflow {
 			p := plain[i]
 			for _, in := range n.Ins {
 				if in.Unconnected {
+					if in.Disconnected && len(in.From) > 0 {
+						up := procs[in.From[0].Node].OutPort(in.From[0].Port)
+						p.In(in.Name).From(up)
+						p.In(in.Name).Disconnect(up.Name())
+					}
 					continue
 				}
 				for _, e := range in.From {
@@ -253,7 +258,9 @@ func Build(w *WF, rt *Runtime) *sp.Workflow {
 				}
 				if ps.From != nil {
 					p.InParam(ps.Name).From(procs[ps.From.Node].OutParamPort(ps.From.Port))
-				} else {
+				}
+				if ps.From == nil || len(ps.Vals) > 0 {
+					// (both: the port is fed by an upstream process AND by FromStr)
 					p.InParam(ps.Name).FromStr(ps.Vals...)
 				}
 			}
